@@ -217,6 +217,17 @@ Theorem C14_callback_remove_all : forall s, step_cb s RemoveAll = aps (abs s).
 Proof. exact callback_remove_all. Qed.
 Print Assumptions C14_callback_remove_all.
 
+(* The tree update re-inserts a particle that left its cell (Hybrid.v tree_reinsert; since 794b7d9 without the
+   bookkeeping for new particles): the hybrid arrays are untouched, N is unchanged, the invariant of the encounter
+   step is preserved, the particle array holds the same particles (re-inserted one last), nothing outside the
+   storage is touched *)
+Theorem C14_tree_reinsert_ok : forall s h i s' h', wf s -> i < sN s -> tree_reinsert s h i = (s', h') ->
+  h' = h /\ sN s' = sN s /\ wf s' /\ oob s' = oob s /\
+  aps (abs s') = remove_swap i (aps (abs s)) ++ [nth i (aps (abs s)) pzero] /\
+  (hyb_ok s h -> hyb_ok s' h').
+Proof. exact tree_reinsert_ok. Qed.
+Print Assumptions C14_tree_reinsert_ok.
+
 (* ---- a step whose part1 failed must not touch integrator arrays sized for an earlier N: coq/C14/StepGuard.v
    (abstract model: p_jh has N_allocated records, init fails before resizing or resizes to N, every
    routine of the step indexes p_jh[i] for i < N) *)
